@@ -721,6 +721,7 @@ fn c13_expired_multikey_n3_kf() {
 /// Vec stubs): exactly c1 and c2 are reported and removed, c3 stays queued
 // NOT REGISTERED: out of memory at 14 GB also with the exact Vec stubs and fs_array=4096
 // #[kani::proof] #[kani::unwind(8)] + Vec::new / Vec::push / ptr::copy stubs
+// (retried with 36 GB and without reach checks: symex 104 s, then 23.7 M variables / 103 M clauses and out of memory)
 fn c13_expired_two_then_waiter() {
     let w = expired_case([1, 1, 1], [1, 2, 0], false);
     kani::cover!(w & 2 != 0, "two clients expire at once");
